@@ -245,6 +245,26 @@ def oracle(ev):
     for a, c in stops_true.items():
         if c > 1:
             v("stop-once", "%d stop() calls on actor %s returned true" % (c, a))
+    # ---- a requested stop wins over queued messages (biased select, "stop lets the current handler finish") ----
+    stop_true_i = {}
+    pend = {}
+    for e in ev:
+        if e["e"] == "stop.call":
+            pend[e["p"]] = e["a"]
+        elif e["e"] == "stop.ret":
+            a = pend.pop(e["p"], None)
+            if a is not None and e["res"] == "true":
+                stop_true_i.setdefault(a, e["i"])
+    for a, s_i in stop_true_i.items():
+        prev_end = hook_i(a, "post_start")
+        for (kind, p, n, i, ok) in per_actor.get(a, []):
+            if kind == "b":
+                if prev_end is not None and prev_end > s_i:
+                    v("stop-not-preferred", "actor %s received and handled (%s,%s) although a stop request had been accepted "
+                      "before it finished the previous handler (stop does not bypass the mailbox)" % (a, p, n))
+                    break
+            else:
+                prev_end = i
     # ---- calls -----------------------------------------------------------------------------------------
     for key, s in sends.items():
         if s["k"] not in CALL_KINDS or s["res"] is None:
